@@ -150,6 +150,9 @@ func RunC03(ctx *core.Ctx) {
 					// 512-value dictionary insert chunks)
 					n = []int{513, 700, 1100}[r.Intn(3)]
 				}
+				if k == 2 {
+					n = 2
+				}
 				prof := &gen.Profile{NullProb: []float64{0.1, 0.5, 0.9}[r.Intn(3)], MaxLen: 1 + r.Intn(4), SmallDomain: r.Intn(3) == 0}
 				if r.Intn(2) == 0 {
 					prof.RunLen = 70
@@ -157,6 +160,9 @@ func RunC03(ctx *core.Ctx) {
 				if n > 500 {
 					prof.SmallDomain = false // new dictionary values keep appearing late in the batch
 					prof.MaxLen = 2
+				} else if k == 2 || n <= 3 && r.Intn(3) == 0 {
+					prof.LongLists = true // one row holding more list elements than any chunk size
+					prof.SmallDomain = false
 				}
 				rows := e.NewRows(n)
 				gen.FillRows(r, rows, prof)
@@ -165,6 +171,36 @@ func RunC03(ctx *core.Ctx) {
 		}(ei, e)
 	}
 	wg.Wait()
+	// types with Go maps: entry order is unspecified, so the paths are compared value-wise:
+	// re-assembly of the shredded row, and every ingestion path read back with Read[T]
+	for _, e := range gen.MapCatalog {
+		r := ctx.Rand("c03map/" + e.Name)
+		for k := 0; k < ctx.Scale(40, 400); k++ {
+			n := 1 + r.Intn(6)
+			rows := e.NewRows(n)
+			gen.FillRows(r, rows, &gen.Profile{NullProb: 0.3, MaxLen: 3})
+			ctx.Case(fmt.Sprintf("%s/%d/%v", e.Name, k, rows.Interface()), true)
+			back, err := e.Reconstruct(rows.Interface())
+			if err != nil {
+				ctx.Fail("L1", "reconstruct-error map "+errClass(err), "Schema.Reconstruct(Deconstruct(v)) failed: "+err.Error(), map[string]any{"type": e.Name, "rows": fmt.Sprintf("%+v", rows.Interface())})
+			} else if ok, diff := gen.CanonEqual(rows, reflect.ValueOf(back), e.Name); !ok {
+				ctx.Fail("L1", "reconstruct-differs map", "Schema.Reconstruct(Deconstruct(v)) differs from v: "+diff, map[string]any{"type": e.Name, "rows": fmt.Sprintf("%+v", rows.Interface()), "diff": diff})
+			}
+			for _, p := range c03Paths {
+				file, err := p.write(e, rows.Interface(), nil, r)
+				if err != nil {
+					ctx.Fail("L1", "path-error map path="+p.name+" "+errClass(err), "ingestion path failed on a valid value: "+err.Error(), map[string]any{"type": e.Name, "rows": fmt.Sprintf("%+v", rows.Interface())})
+					continue
+				}
+				got, err := e.ReadAll(bytes.NewReader(file), int64(len(file)))
+				if err != nil {
+					ctx.Fail("L1", "readback-error map path="+p.name+" "+errClass(err), err.Error(), map[string]any{"type": e.Name, "rows": fmt.Sprintf("%+v", rows.Interface())})
+				} else if ok, diff := gen.CanonEqual(rows, reflect.ValueOf(got), e.Name); !ok {
+					ctx.Fail("L1", "value-mismatch map path="+p.name, "rows read back differ: "+diff, map[string]any{"type": e.Name, "rows": fmt.Sprintf("%+v", rows.Interface()), "diff": diff})
+				}
+			}
+		}
+	}
 	for name, why := range gen.Skipped {
 		ctx.Hist("catalogue-type-rejected-by-SchemaOf", name+": "+why)
 	}
